@@ -271,10 +271,6 @@ func providerEffectScan(c *Ctx) *types.Named {
 							// that method does to its own receiver is the application's code; the other arguments are examined
 							continue
 						}
-						if isAtomicOp(name) && writeOnlyAtomics(c.P) {
-							// a diagnostics counter: race-free by construction, and no operation of the library ever reads one
-							continue
-						}
 						writes := false
 						if ct == nil {
 							c.undecided("C17-R1", fname, "unmodelled callee "+shortName(name)+" receives provider-reachable state", c.P.InstrPos(x), "external callee outside the contract table may mutate "+describeBase(kind, path))
@@ -855,9 +851,6 @@ func providerUnmodifiedPaths(c *Ctx, rule string, spT *types.Named) {
 					}
 					ct := lookupContract(e.Callee)
 					nCalls++
-					if isAtomicOp(e.Callee) && writeOnlyAtomics(c.P) {
-						continue
-					}
 					for i, a := range e.Args {
 						if a == nil || !mayPointTo(a.Type()) || !derived(a, 0) {
 							continue
@@ -1121,63 +1114,4 @@ func contractNonNilVal(t *Terminal, v Val) bool {
 		}
 	}
 	return false
-}
-
-
-// isAtomicOp: a method of a sync/atomic type or one of the package's functions.
-func isAtomicOp(name string) bool {
-	return strings.HasPrefix(name, "(*sync/atomic.") || strings.HasPrefix(name, "sync/atomic.")
-}
-
-var atomicsWriteOnly struct {
-	done bool
-	ok   bool
-}
-
-// writeOnlyAtomics: the library never bases anything on an atomic it maintains — every read of one (Load, or the result
-// of Add / Swap / CompareAndSwap being used) sits in an exported function that nothing in the library calls (a snapshot
-// accessor for the application). Under that condition atomic updates are diagnostics: race-free and unobservable to
-// every operation.
-func writeOnlyAtomics(p *Prog) bool {
-	if atomicsWriteOnly.done {
-		return atomicsWriteOnly.ok
-	}
-	atomicsWriteOnly.done = true
-	ok := true
-	for _, f := range p.LibFns {
-		for _, b := range f.Blocks {
-			for _, in := range b.Instrs {
-				call, isCall := in.(*ssa.Call)
-				if !isCall {
-					if _, isDefer := in.(*ssa.Defer); isDefer {
-						continue
-					}
-					continue
-				}
-				name, _ := calleeName(call.Common())
-				if !isAtomicOp(name) {
-					continue
-				}
-				read := strings.Contains(name, "Load")
-				if !read {
-					if refs := call.Referrers(); refs != nil {
-						for _, r := range *refs {
-							if _, isDbg := r.(*ssa.DebugRef); !isDbg {
-								read = true
-							}
-						}
-					}
-				}
-				if !read {
-					continue
-				}
-				tf := topFn(f)
-				if !isPublicFn(tf) || len(p.callerIndex()[tf]) > 0 {
-					ok = false
-				}
-			}
-		}
-	}
-	atomicsWriteOnly.ok = ok
-	return ok
 }
